@@ -16,8 +16,8 @@
 (***************************************************************************)
 EXTENDS ExpsSemantics, Ssb, Json, IOUtils
 Cases == JsonDeserialize(IOEnv.CASES_FILE)
-VARIABLES cid, rt, s, b, st
-vars == <<cid, rt, s, b, st>>
+VARIABLES cid, rt, s, b, st, ts, tb
+vars == <<cid, rt, s, b, st, ts, tb>>
 
 R(c) == Cases[c].ops
 Src(c) == Cases[c]
@@ -41,6 +41,7 @@ TablesOk(c) == /\ Len(Src(c).infos) = Len(R(c))
 
 Init ==
   /\ cid \in 1..Len(Cases)
+  /\ ts = 0 /\ tb = 0
   /\ \/ /\ rt = 0 /\ s = OffCfg /\ b = <<0, 0>>
         /\ st = IF TablesOk(cid) THEN "done" ELSE "tables"
      \/ /\ rt \in {k \in 1..Len(Src(cid).routines) : ~Src(cid).routines[k].alias /\ Src(cid).routines[k].rix \in 1..Len(R(cid))}
@@ -48,14 +49,19 @@ Init ==
         /\ b = <<Src(cid).routines[rt].rix, 1>>
         /\ st = "run"
 
+\* a silent cycle on one side while the other waits at an observable step is a divergence
+TauBudgetS(c) == 6 * Len(Src(c).nodes) + 16
 TauS == /\ st = "run" /\ SKind(Src(cid), s) = "tau"
-        /\ s' = SNext(Src(cid), s, FALSE)
-        /\ UNCHANGED <<cid, rt, b, st>>
+        /\ IF ts > TauBudgetS(cid) THEN st' = "srcloop" /\ UNCHANGED <<s, ts>>
+           ELSE s' = SNext(Src(cid), s, FALSE) /\ ts' = ts + 1 /\ st' = st
+        /\ UNCHANGED <<cid, rt, b, tb>>
 
 TauB == /\ st = "run" /\ SKind(Src(cid), s) # "tau" /\ BKindOf(BOp(cid, b)) = "jump"
         /\ LET g == Goto(cid, BOp(cid, b).tgt) IN
-           IF g = <<0, 0>> THEN st' = "crash" /\ UNCHANGED b ELSE b' = g /\ st' = st
-        /\ UNCHANGED <<cid, rt, s>>
+           IF g = <<0, 0>> THEN st' = "crash" /\ UNCHANGED <<b, tb>>
+           ELSE IF tb > NumOps(R(cid)) THEN st' = "diverge" /\ UNCHANGED <<b, tb>>
+           ELSE b' = g /\ tb' = tb + 1 /\ st' = st
+        /\ UNCHANGED <<cid, rt, s, ts>>
 
 Sync == /\ st = "run" /\ SKind(Src(cid), s) # "tau" /\ BKindOf(BOp(cid, b)) # "jump"
         /\ LET sk == SKind(Src(cid), s)  sl == SLbl(Src(cid), s)  bo == BOp(cid, b) IN
@@ -68,13 +74,14 @@ Sync == /\ st = "run" /\ SKind(Src(cid), s) # "tau" /\ BKindOf(BOp(cid, b)) # "j
                                 IF g = <<0, 0>> THEN st' = "crash" /\ b' = b ELSE b' = g /\ st' = st
                            ELSE b' = <<b[1], b[2] + 1>> /\ st' = st
                   [] sk = "stop" -> st' = "done" /\ UNCHANGED <<s, b>>
+        /\ ts' = 0 /\ tb' = 0
         /\ UNCHANGED <<cid, rt>>
 
 Next == TauS \/ TauB \/ Sync
 Spec == Init /\ [][Next]_vars
 
-Bad == {"mismatch", "crash", "tables"}
-Agree == st # "mismatch"
+Bad == {"mismatch", "crash", "tables", "diverge"} \cup (IF Cases[cid].strictSrc THEN {"srcloop"} ELSE {})
+Agree == st \notin {"mismatch", "diverge"} /\ (Cases[cid].strictSrc => st # "srcloop")
 NoCrash == st # "crash"
 RoutineTable == st # "tables"
 Report == st \in Bad =>
